@@ -2,6 +2,7 @@
 
 import ast
 
+from ..absint import EMPTY, FALSE, NONE, NONEMPTY, TOP, TRUE, DefaultDomain, Interp, State, exc, val
 from ..astutil import FUNC_TYPES, attr_chain, dotted, norm, walk_shallow
 from ..cfg import live_nodes, node_calls
 from ..loader import AnalysisError
@@ -104,38 +105,50 @@ def run(ctx):
                   "; ".join(problems), path=runmodel.fmt_log(r.state), construct=f"{Q}._run_core::stages {' '.join(seq)}")
     ctx.floor("R-STAGE-ORDER", 8, "distinct stage sequences")
 
-    # ------------------------------------------------------------------ cleanups always (CFG)
+    # ------------------------------------------------------------------ cleanups / tearDown always (abstract run, all exits)
     rc = own_method(ctx, RUNTEST, "RunTest", "_run_core")
-    cfg = cfg_of(ctx, rc)
-    live = live_nodes(cfg)
-
-    def stage_call(stage):
-        def pred(c):
-            return dotted(c.func) == "self._run_user" and c.args and dotted(c.args[0]) == f"self.case.{stage}"
-        return pred
-
-    setup_nodes = nodes_calling(cfg, stage_call("_run_setup"), live)
-    cleanup_nodes = nodes_calling(cfg, lambda c: dotted(c.func) == "self._run_cleanups" or (dotted(c.func) == "self._run_user" and c.args and dotted(c.args[0]) == "self._run_cleanups"), live)
-    test_nodes = nodes_calling(cfg, stage_call("_run_test_method"), live)
-    td_nodes = nodes_calling(cfg, stage_call("_run_teardown"), live)
-    ok = len(setup_nodes) == 1 and bool(cleanup_nodes)
-    esc = cfg.escape_path(cfg.after(setup_nodes[0]), set(cleanup_nodes)) if ok else None
-    ctx.check("R-CLEANUPS-ALWAYS", "every path after setUp runs the cleanups", rc, ok and esc is None,
-              "a path from the setUp invocation leaves _run_core without running the cleanups", path=cfg.describe_path(esc) if esc else None,
-              construct=f"{Q}._run_core::cleanups-always")
-    if ok and test_nodes and td_nodes:
-        esc = cfg.escape_path(cfg.after(test_nodes[0], exclude=()), set(td_nodes))
-        ctx.check("R-CLEANUPS-ALWAYS", "tearDown runs on every path out of the test method", rc, esc is None,
-                  "a path leaves the test-method invocation (normally or by exception) without tearDown", path=cfg.describe_path(esc) if esc else None,
-                  construct=f"{Q}._run_core::teardown-always")
-        ctx.check("R-CLEANUPS-ALWAYS", "setUp dominates test, tearDown and cleanups of the success branch", rc,
-                  all(cfg.dominated_by(n, set(setup_nodes)) for n in test_nodes + td_nodes + cleanup_nodes),
-                  "a stage can run without setUp having been invoked", construct=f"{Q}._run_core::setup-dominates")
+    sig = {}
+    for r in res:
+        s_ = r.state
+        seq = s_.get("ev.stages", ()) or ()
+        if not seq:
+            continue
+        framework = r.kind == "exc" and isinstance(r.value, tuple) and r.value and r.value[0] == "framework"
+        sig.setdefault((framework, tuple(seq), s_.get("ev.drained", 0), s_.get("ev.last_stage", None)), r)
+    n_paths = 0
+    for (framework, seq, drained, last_stage), r in sorted(sig.items(), key=repr):
+        n_paths += 1
+        how = "a result method or addOnException handler raised" if framework else "normal exit"
+        # an exception escaping from the setUp stage's own recording ends the run at once (nothing else was started)
+        exempt = framework and last_stage == "setUp" and "test" not in seq
+        ctx.check("R-CLEANUPS-ALWAYS", f"stages {' '.join(seq)} ({how}): the cleanups are drained", rc, bool(drained) or exempt,
+                  f"on a path where the stages {' '.join(seq)} ran ({how}) _run_core is left without draining the cleanups",
+                  path=runmodel.fmt_log(r.state), construct=f"{Q}._run_core::cleanups-always stages={' '.join(seq)} framework={framework}")
+        if "test" in seq or "test!" in seq:
+            ctx.check("R-CLEANUPS-ALWAYS", f"stages {' '.join(seq)} ({how}): tearDown runs once the test method was invoked", rc, "tearDown" in seq or "tearDown!" in seq,
+                      "a path leaves the test-method invocation (normally or by exception) without tearDown",
+                      path=runmodel.fmt_log(r.state), construct=f"{Q}._run_core::teardown-always stages={' '.join(seq)} framework={framework}")
+    ctx.floor("R-CLEANUPS-ALWAYS", 10, "exit signatures")
 
     # ------------------------------------------------------------------ drain loops
     rcl = own_method(ctx, RUNTEST, "RunTest", "_run_cleanups")
     ctx.analysed(rcl)
-    got = check_drain_loop(ctx, rcl, f"{Q}._run_cleanups", "self.case._cleanups")
+    aliases = {"self.case._cleanups"} | {n.targets[0].id for n in walk_shallow(rcl, include_self=False)
+                                         if isinstance(n, ast.Assign) and len(n.targets) == 1 and isinstance(n.targets[0], ast.Name) and dotted(n.value) == "self.case._cleanups"}
+    pops = [c for c in walk_shallow(rcl, include_self=False) if isinstance(c, ast.Call) and isinstance(c.func, ast.Attribute) and c.func.attr == "pop" and dotted(c.func.value) in aliases]
+    got = None
+    if len(pops) != 1:
+        ctx.check("R-DRAIN-LIFO", f"{Q}._run_cleanups: pops from the live cleanup list", rcl, False,
+                  f"expected exactly one self.case._cleanups.pop() (the live list, so cleanups registered by cleanups are seen), found {len(pops)}", construct=f"{Q}._run_cleanups::drain-loop")
+    else:
+        p = pops[0]
+        lifo = not p.args or (len(p.args) == 1 and isinstance(p.args[0], ast.UnaryOp) and isinstance(p.args[0].op, ast.USub) and isinstance(p.args[0].operand, ast.Constant) and p.args[0].operand.value == 1)
+        ctx.check("R-DRAIN-LIFO", f"{Q}._run_cleanups: removes the last element", p, lifo,
+                  f"`{norm(p)}` does not remove the most recently registered cleanup (reverse registration order is lost)", construct=f"{Q}._run_cleanups::pop-last")
+        lp = p
+        while lp is not None and not isinstance(lp, (ast.While, ast.For)):
+            lp = getattr(lp, "_parent", None)
+        got = (lp if lp is not None else rcl, p)
     if got:
         lp, p = got
         tgt = getattr(p, "_parent", None)
@@ -146,10 +159,6 @@ def run(ctx):
                   f"(directly, through _run_user or through a helper): {why}", construct=f"{Q}._run_cleanups::invoke-once")
         for label, suffix, ok2, msg, r in runmodel.drain_verdicts(ctx, rt):
             ctx.check("R-DRAIN-LIFO", label, rcl, ok2, msg, path=runmodel.fmt_log(r.state), construct=f"{Q}._run_cleanups::{suffix}")
-        rets = [n for n in walk_shallow(rcl, include_self=False) if isinstance(n, ast.Return)]
-        ok = len(rets) == 1 and dotted(rets[0].value) == "self.exception_caught" and isinstance(getattr(rets[0], "_parent", None), ast.If)
-        ctx.check("R-DRAIN-LIFO", "RunTest._run_cleanups reports failure through the sentinel", rcl, ok,
-                  "_run_cleanups no longer returns the sentinel iff a cleanup failed", construct=f"{Q}._run_cleanups::returns-sentinel")
     acl = own_method(ctx, TWRUNTEST, "AsynchronousDeferredRunTest", "_run_cleanups")
     ctx.analysed(acl)
     got = check_drain_loop(ctx, acl, f"{TWRUNTEST}:AsynchronousDeferredRunTest._run_cleanups", "self.case._cleanups")
@@ -236,37 +245,7 @@ def run(ctx):
     ok = (len(stmts) == 3 and "MonkeyPatcher((" in stmts[0] and stmts[1].endswith(".patch()") and stmts[2].startswith("return ") and stmts[2].endswith(".restore"))
     ctx.check("R-PATCH-PAIR", "monkey.patch applies the patch and returns the patcher's restore", mp, ok,
               "monkey.patch no longer returns the restore method of the patcher it applied", construct=f"{MONKEY}:patch::shape")
-    mpp = own_method(ctx, MONKEY, "MonkeyPatcher", "patch")
-    g = cfg_of(ctx, mpp)
-    lv = live_nodes(g)
-    saves = nodes_calling(g, lambda c: dotted(c.func) == "self._originals.append", lv)
-    sets = nodes_calling(g, lambda c: dotted(c.func) == "setattr", lv)
-    gets = nodes_calling(g, lambda c: dotted(c.func) == "getattr" and len(c.args) == 3 and dotted(c.args[2]) == "self._NO_SUCH_ATTRIBUTE", lv)
-    ok = len(saves) == 1 and len(sets) == 1 and len(gets) == 1 and g.dominated_by(sets[0], set(saves)) and g.dominated_by(saves[0], set(gets))
-    ctx.check("R-PATCH-PAIR", "MonkeyPatcher.patch records the original (or the absent marker) before setattr", mpp, ok,
-              "the original value is not saved before the attribute is overwritten", construct=f"{MONKEY}:MonkeyPatcher.patch::save-first")
-    loops = [n for n in walk_shallow(mpp, include_self=False) if isinstance(n, ast.For) and dotted(n.iter) == "self._patches_to_apply"]
-    ok = len(loops) == 1 and not any(isinstance(x, (ast.Break, ast.Continue, ast.Return)) for x in walk_shallow(loops[0]))
-    ctx.check("R-PATCH-PAIR", "MonkeyPatcher.patch applies every requested patch", mpp, ok, "not every patch is applied/saved", construct=f"{MONKEY}:MonkeyPatcher.patch::all")
-    mr = own_method(ctx, MONKEY, "MonkeyPatcher", "restore")
-    ctx.analysed(mr)
-    got = check_drain_loop(ctx, mr, f"{MONKEY}:MonkeyPatcher.restore", "self._originals", rule="R-PATCH-PAIR")
-    if got:
-        lp, p = got
-        arms = [n for n in lp.body if isinstance(n, ast.If)]
-        ok = False
-        if len(arms) == 1:
-            a = arms[0]
-            ok = ("_NO_SUCH_ATTRIBUTE" in norm(a.test) and isinstance(a.test, ast.Compare) and isinstance(a.test.ops[0], ast.Is)
-                  and any(isinstance(c, ast.Call) and dotted(c.func) == "delattr" for s in a.body for c in walk_shallow(s))
-                  and any(isinstance(c, ast.Call) and dotted(c.func) == "setattr" for s in a.orelse for c in walk_shallow(s)))
-            if ok:
-                tgt = p._parent.targets[0]
-                names = [dotted(e) for e in tgt.elts]
-                sa = [c for s in a.orelse for c in walk_shallow(s) if isinstance(c, ast.Call) and dotted(c.func) == "setattr"][0]
-                ok = [dotted(x) for x in sa.args] == names
-        ctx.check("R-PATCH-PAIR", "MonkeyPatcher.restore: absent marker -> delattr, else setattr(obj, name, saved)", lp, ok,
-                  "restore does not put back the saved value / delete attributes that did not exist", construct=f"{MONKEY}:MonkeyPatcher.restore::arms")
+    check_monkey_patcher(ctx)
     uf = own_method(ctx, TESTCASE, "TestCase", "useFixture")
     g = cfg_of(ctx, uf)
     lv = live_nodes(g)
@@ -295,6 +274,117 @@ def run(ctx):
     n_sites = check_call_shapes(ctx)
     ctx.floor("R-CALL-SHAPE", 150, "resolved self/super call sites")
     ctx.assume("unittest.TestCase.doCleanups is not used: testtools keeps its own _cleanups list")
+
+
+class _MonkeyDomain(DefaultDomain):
+    """MonkeyPatcher.patch / restore over one requested patch (obj, name, new) whose attribute either
+    exists (value `orig`) or does not; the saved-originals list is a bounded tuple of abstract entries;
+    setattr / delattr on the patched object are logged."""
+
+    def __init__(self, present):
+        self.present = present
+
+    def load_attr(self, chain, st, fr):
+        if chain == ["self", "_originals"]:
+            return NONEMPTY if st.get("orig", ()) else EMPTY
+        if chain == ["self", "_patches_to_apply"]:
+            return ("patches",)
+        if chain[:1] == ["self"] and len(chain) == 2 and chain[1].isupper():
+            return ("const", chain[1])
+        return None
+
+    def iter_kind(self, value):
+        return "nonempty" if value == ("patches",) else super().iter_kind(value)
+
+    def for_step(self, interp, stmt, itervalue, st, fr, first):
+        if itervalue == ("patches",):
+            return (True, False) if first else (False, True)
+        return None
+
+    def element(self, itervalue, st, node):
+        if itervalue == ("patches",):
+            return ("tuple", ("const", "obj"), ("const", "name"), ("const", "new"))
+        return TOP
+
+    def call(self, interp, call, st, fr):
+        d = dotted(call.func)
+        out = []
+        for r in interp.eval_list([a for a in call.args if not isinstance(a, ast.Starred)], st, fr):
+            if r.kind == "exc":
+                out.append(r)
+                continue
+            v, s_ = r.value, r.state
+            log = s_.get("log", ())
+            if d == "getattr" and len(v) >= 2 and v[0] == ("const", "obj"):
+                got = ("const", "orig") if self.present else (v[2] if len(v) > 2 else None)
+                if got is None:
+                    out.append(exc(("framework", "AttributeError"), s_))
+                else:
+                    out.append(val(got, s_.set("log", log + (("read",),))))
+            elif d == "hasattr" and len(v) == 2 and v[0] == ("const", "obj"):
+                out.append(val(TRUE if self.present else FALSE, s_.set("log", log + (("read",),))))
+            elif d == "setattr" and len(v) == 3 and v[0] == ("const", "obj") and v[1] == ("const", "name"):
+                out.append(val(NONE, s_.set("log", log + (("set", v[2]),))))
+            elif d == "delattr" and len(v) == 2 and v[0] == ("const", "obj") and v[1] == ("const", "name"):
+                out.append(val(NONE, s_.set("log", log + (("del",),))))
+            elif d == "self._originals.append" and len(v) == 1:
+                out.append(val(NONE, s_.set("orig", s_.get("orig", ()) + (v[0],))))
+            elif d == "self._originals.pop":
+                cur = s_.get("orig", ())
+                idx_last = not v or v[0] == ("const", -1)
+                if not cur:
+                    out.append(exc(("framework", "IndexError"), s_))
+                else:
+                    out.append(val(cur[-1] if idx_last else cur[0], s_.set("orig", cur[:-1] if idx_last else cur[1:])))
+            else:
+                out.append(val(TOP, s_))
+        return out
+
+    def constant(self, node):
+        return ("const", node.value)
+
+
+def check_monkey_patcher(ctx):
+    mp_cls = ctx.classes.get(MONKEY, "MonkeyPatcher")
+    for present in (True, False):
+        dom = _MonkeyDomain(present)
+
+        def go(name, st):
+            owner, f = ctx.classes.resolve_method(mp_cls, name)
+            if not isinstance(f, FUNC_TYPES):
+                raise AnalysisError(f"anchor vanished: MonkeyPatcher.{name}")
+            it = Interp(dom, max_depth=3)
+            res = it.analyze(f, {}, st, receiver=mp_cls, name=name)
+            ctx.stats["states"] += it.steps
+            ctx.analysed(f)
+            return res
+
+        finals = []
+        for r1 in go("patch", State([("orig", ()), ("log", ())])):
+            if r1.kind != "val":
+                finals.append(("patch raises", r1.state))
+                continue
+            s1 = State([(k, v) for k, v in r1.state.items if k in ("orig", "log")])
+            for r2 in go("restore", s1):
+                finals.append(("ok" if r2.kind == "val" else "restore raises", r2.state))
+        want = (("read",), ("set", ("const", "new")), ("set", ("const", "orig"))) if present else (("read",), ("set", ("const", "new")), ("del",))
+        problems = []
+        for how, s_ in finals:
+            log = s_.get("log", ())
+            if how != "ok":
+                problems.append(how)
+            elif log != want:
+                problems.append("patch(); restore() does " + " ".join(("read-original" if e[0] == "read" else f"setattr({e[1][1]})" if e[0] == "set" else "delattr") for e in log))
+            elif s_.get("orig", ()):
+                problems.append("restore() leaves saved originals behind")
+        what = "an attribute that existed gets its original value back" if present else "an attribute that did not exist is deleted again"
+        ctx.check("R-PATCH-PAIR", f"MonkeyPatcher patch(); restore(): the original is read before it is overwritten, and {what}", mp_cls.node, bool(finals) and not problems,
+                  "; ".join(sorted(set(problems))) or "no path explored", examined=len(finals), construct=f"{MONKEY}:MonkeyPatcher::roundtrip present={present}")
+    mr = own_method(ctx, MONKEY, "MonkeyPatcher", "restore")
+    pops = [c for c in walk_shallow(mr, include_self=False) if isinstance(c, ast.Call) and dotted(c.func) == "self._originals.pop"]
+    lifo = len(pops) == 1 and (not pops[0].args or norm(pops[0].args[0]) == "-1")
+    ctx.check("R-PATCH-PAIR", "MonkeyPatcher.restore undoes the patches last-first", mr, lifo,
+              "restore does not pop the most recently saved original first (an attribute patched twice would end with the first patch's value)", construct=f"{MONKEY}:MonkeyPatcher.restore::pop-last")
 
 
 INVOKERS = {"self._run_user", "defer.maybeDeferred", "maybeDeferred"}
